@@ -3,7 +3,7 @@ inside structs / arrays / typed maps, as strings holding paths, through
 sub-pipeline boundaries, to several consumers, across mapped calls, with
 volatile / strict / retain annotations."""
 from mro import (arrx, call, collect, const, echo, length, lit, objx, pipeline, program, ref, self_, split,
-                 stage, struct, INST, CI, FILE, FILES, FMAP, FSTR, FSTRUCT, FDIR, FMSTRUCT, FASTRUCT, FILEODD, FSTRS, FDLINK, FDLINK2)
+                 stage, struct, INST, CI, FILE, FILES, FMAP, FSTR, FSTRUCT, FDIR, FMSTRUCT, FASTRUCT, FILEODD, FSTRS, FDLINK, FDLINK2, FMSTRUCTK)
 
 
 def P_files(name, vol=None, retain=None, outs="file f, txt g, int n", rules=None):
@@ -227,6 +227,16 @@ def catalogue():
                                [call("P", binds={"x": self_("x")}, vol=True),
                                 call("C1", binds={"f": ref("P", "ms", "f")})],
                                {"a": ref("C1", "r")})], "TOP", {"x": 1}))
+    # 17b. ... with a key of the map spelled like the projected member, and like the other one
+    P.append(program("vf_proj_map_keyfield", [struct("FS", "file f, int n")],
+                     [stage("P", "int x", "map<FS> ms", {"ms": FMSTRUCTK("f", "n", "k")}),
+                      stage("C1", "map<file> f, int w", "string r", {"r": INST}), SLOW("S1"), SLOW("S2")],
+                     [pipeline("TOP", "int x", "string a, map<file> fs",
+                               [call("P", binds={"x": self_("x")}, vol=True),
+                                call("S1", binds={"x": self_("x")}),
+                                call("S2", binds={"x": ref("S1", "y")}),
+                                call("C1", binds={"f": ref("P", "ms", "f"), "w": ref("S2", "y")})],
+                               {"a": ref("C1", "r"), "fs": ref("P", "ms", "f")})], "TOP", {"x": 1}))
     # 18. the whole result of a stage (a struct of its outputs, files among them) bound to a
     #     consumer's struct parameter, to a top-level output and to a pipeline retain
     OUTS = struct("OUTS", "file f, txt g, int n")
